@@ -245,3 +245,20 @@ Proof.
   destruct (tree_ng_is_run d r fuel ng pv) as (f & kids & E). rewrite E in *. cbn [shape_ok] in Hs.
   apply lin_root_wf. exact Hs.
 Qed.
+
+Lemma item_trees_shape d r fuel ng stop items v : forallb (shape_ok v) (item_trees (tree_ng d r fuel ng) stop items) = true.
+Proof.
+  induction items as [|x xs IH]; [reflexivity|]. cbn [item_trees].
+  destruct (run_failed _ && _); cbn [forallb]; rewrite tree_ng_shape; [reflexivity | exact IH].
+Qed.
+
+(* ... and so is the stream of every top-level map *)
+Theorem tree_map_top_wf d r fuel ng pv over mode cont t :
+  tree_map_top d r fuel ng pv over mode cont = Some t -> wf_b (run_failed t) (lin_root t) = true.
+Proof.
+  unfold tree_map_top. destruct (generate_map_inputs pv over mode) as [e|[|it items]]; try discriminate.
+  pose proof (fun stop v => item_trees_shape d r fuel ng stop (it :: items) v) as Hsh.
+  generalize dependent (item_trees (tree_ng d r fuel ng)). intros trees Hsh.
+  intros [= <-]. cbn [run_failed st_label]. apply lin_root_wf.
+  destruct r; cbn [forallb shape_ok]; rewrite ?Hsh; reflexivity.
+Qed.
